@@ -217,7 +217,7 @@ def ref_payload_checksum(data: bytes) -> int:
 
 
 def build_guardrails(config_block: bytes, env_key: bytes, guard_settings: Sequence[Sequence],
-                     checksum_override: Optional[int] = None) -> Tuple[bytes, Dict[str, object]]:
+                     checksum_override: Optional[int] = None, with_checksum: bool = True) -> Tuple[bytes, Dict[str, object]]:
     """Returns the 6144+2048 protected area: masked beacon config followed by masked guard config."""
     cfg = config_block + bytes(GUARD_BEACON_PATCH - len(config_block))
     assert len(cfg) == GUARD_BEACON_PATCH
@@ -228,7 +228,8 @@ def build_guardrails(config_block: bytes, env_key: bytes, guard_settings: Sequen
         if isinstance(value, str):
             value = bytes.fromhex(value)
         guard += encode_setting(opt, typ, value)
-    guard += encode_setting(9, "int", checksum)
+    if with_checksum:
+        guard += encode_setting(9, "int", checksum)
     guard += b"\x00\x00"
     guard = bytes(guard) + bytes(GUARD_PATCH - len(guard))
     rev = masked_cfg[::-1]
